@@ -37,6 +37,8 @@ def sig_of(f):
         return "position/Pos/%s/%s/%s" % (why, regime, _where(ev, tr)), ev
     suite = tr[0].get("suite", "?")
     kind = "insert" if tr[0].get("ins", -1) >= 0 else "mutated"
+    if suite == "html" and why == "no-byte-of-the-input-has-this-position" and ev.get("ctxcase") == "letter-case-before-foreign-content":
+        return "errpos/html/context-shows-earlier-names-lower-cased", ev
     slug = re.sub(r"[^a-z]+", "-", re.sub(r"'[^']*'|\"[^\"]*\"|[^ -~]", "", (ev.get("msg") or "").lower())).strip("-")[:40]
     return "errpos/%s/%s/%s/%s" % (suite, kind, why, slug or ev.get("ev", "?")), ev
 
